@@ -1002,7 +1002,8 @@ func toDataPointGroups(in []*autogen.DataPointGroup) ([]*message.DataPointGroup,
 
 func toDataPointGroup(in *autogen.DataPointGroup) (*message.DataPointGroup, error) {
 	if in == nil {
-		return &message.DataPointGroup{}, nil
+		// a null element (possible in JSON): a group without id cannot be encoded again
+		return nil, errors.Errorf("nil data point group: %w", errors.ErrMalformedMessage)
 	}
 	dataIDOrAlias, err := toDataIDOrAlias(in.DataIdOrAlias)
 	if err != nil {
